@@ -97,9 +97,18 @@ class _Cfg:
     maxterms = 60000
     overflow_atoms = 0
     work = None
+    deadline = None      # wall-clock limit (time.time()) for the decision in progress; polled every ~200k term operations
+    ticks = 0
 
 
 CFG = _Cfg()
+
+
+def _poll_deadline():
+    import time
+    CFG.ticks = 0
+    if time.time() > CFG.deadline:
+        raise WorkExceeded()
 
 _ONE = 1
 _ZERO = 0
@@ -215,6 +224,10 @@ class Poly:
             CFG.work -= len(o.t) + (len(s.t) >> 3)
             if CFG.work < 0:
                 raise WorkExceeded()
+        if CFG.deadline is not None:
+            CFG.ticks += len(o.t) + (len(s.t) >> 3)
+            if CFG.ticks > 200000:
+                _poll_deadline()
         t = dict(s.t)
         for m, c in o.t.items():
             v = t.get(m, _ZERO) + c
@@ -251,6 +264,10 @@ class Poly:
             CFG.work -= len(s.t) * len(o.t)
             if CFG.work < 0:
                 raise WorkExceeded()
+        if CFG.deadline is not None:
+            CFG.ticks += len(s.t) * len(o.t)
+            if CFG.ticks > 200000:
+                _poll_deadline()
         if len(s.t) * len(o.t) > CFG.maxterms * 8:
             CFG.overflow_atoms += 1
             return opaque("bigmul", s, o)
